@@ -572,4 +572,35 @@ theorem planIds_length (P : List SegOut) : (planIds P).length = P.length + (P.ma
     simp only [List.length_cons, fresh_length, List.map_cons, List.sum_cons]
     omega
 
+/-- Roots, leafs and branch points (everything but a non-root node with exactly one child) keep their id
+and coordinates. -/
+theorem anchor_mem_resampleStruct {t : Table} (hw : WF t) (cnt : List Int → Option Nat) {n : Node} (hn : n ∈ t)
+    (ha : n.parent < 0 ∨ childCount t n.id ≠ 1) :
+    ∃ m ∈ resampleStruct t cnt, m.id = n.id ∧ m.x = n.x ∧ m.y = n.y ∧ m.z = n.z := by
+  by_cases hp : n.parent < 0
+  · obtain ⟨m, hm, h1, _, h3, h4, h5⟩ := root_mem_resampleStruct hw cnt hn hp
+    exact ⟨m, hm, h1, h3, h4, h5⟩
+  · have hcc : childCount t n.id ≠ 1 := by
+      rcases ha with h | h
+      · exact absurd h hp
+      · exact h
+    have hseed : segOf t n.id ∈ smallSegments t := by
+      rw [smallSegments_eq]
+      exact List.mem_map.mpr ⟨n, mem_seeds.mpr ⟨hn, hp, hcc⟩, rfl⟩
+    obtain ⟨o, ho, h1, _, _⟩ := plan_of_mem (cnt := cnt) (base := maxId t + 1) hseed
+    rw [segFirst_segOf] at h1
+    have hrow := linkPairs_first_mem o.first o.last o.base o.k
+    obtain ⟨m, hm, hid, _, hco⟩ := row_mem_resampleStruct hw cnt (o := o) ho (e := (o.first, if o.k = 0 then o.last else o.base)) hrow
+    obtain ⟨hx, hy, hz⟩ := hco n hn h1.symm
+    exact ⟨m, hm, by rw [hid]; exact h1, hx, hy, hz⟩
+
+theorem length_resampleStruct {t : Table} (hw : WF t) (cnt : List Int → Option Nat) :
+    (resampleStruct t cnt).length =
+      (smallSegments t).length + ((planOf t cnt).map (·.k)).sum + (t.filter isRootNode).length := by
+  have := congrArg List.length (ids_resampleStruct hw cnt)
+  simp only [ids, List.length_map, List.length_append] at this
+  rw [this, ← List.length_map (f := fun n : Node => n.id), planIds_length]
+  unfold planOf
+  rw [plan_length]
+
 end Navis.Resample
